@@ -32,8 +32,20 @@ func vhCache() (*linkAddrCache, []tcpip.FullAddress, []tcpip.LinkAddress) {
 		c.next = linkAddrCacheSize - 1
 	}
 	n := vnChoice("nentries", 3)
+	first := c.next
 	var ks []tcpip.FullAddress
 	var vs []tcpip.LinkAddress
+	defer func() {
+		// optionally the first address was re-learnt with a new link address (its old slot
+		// is now stale) and the ring has wrapped around to that stale slot
+		if n > 0 && vnBool("stale") {
+			v2 := tcpip.LinkAddress(vnString("mac2", 6))
+			vassume(v2 != vs[0])
+			c.add(ks[0], v2)
+			vs[0] = v2
+			c.next = first
+		}
+	}()
 	for i := 0; i < n; i++ {
 		k := vhKey("k")
 		for _, o := range ks {
